@@ -86,8 +86,7 @@ struct nbr {
 	size_t lost_at, lost_n;
 	int af_at_wait;
 	int eof_at_wait, err_at_wait;
-	uint8_t * lastbuf;	/* buffer address seen by the last recv, for probes */
-	size_t lastbuf_size;
+	size_t lastbuf_size, lastoff, base_at_block;	/* where the last recv was asked to store, for probes */
 	void * lastblock;
 };
 struct nbw {
@@ -379,8 +378,29 @@ on_recv(struct vsock * vs, long result, int err)
 	if (S == NULL)
 		return;
 	if (S->nbr.R != NULL) {
-		if (!S->nbr.waiting)
+		struct nbr * N = &S->nbr;
+		size_t bsize = 0;
+		void * blk;
+
+		if (!N->waiting)
 			sim_viol("C07.rd.io-without-wait", "recv", "recv on the reader's socket while no wait is outstanding");
+		/* probes, inferred from where the reader asks the kernel to put the bytes (no hook in the library) */
+		blk = simalloc_block_of(vk_last_recv_buf, &bsize);
+		if (blk != NULL) {
+			size_t off = (size_t)((const uint8_t *)vk_last_recv_buf - (const uint8_t *)blk);
+
+			if (blk == N->lastblock && off < N->lastoff && N->consumed > N->base_at_block)
+				R->cnt[N_NBR_COMPACT]++;	/* data was moved to the front of the same buffer */
+			if (blk != N->lastblock && N->lastblock != NULL && bsize > N->lastbuf_size)
+				R->cnt[N_NBR_GROW]++;
+			if (blk != N->lastblock)
+				N->base_at_block = N->consumed;
+			N->lastblock = blk;
+			N->lastbuf_size = bsize;
+			N->lastoff = off;
+			if (off + vk_last_recv_len > bsize)
+				sim_viol("C07.rd.window", "recv-beyond-buffer", "the reader asked recv for %zu bytes at offset %zu of its %zu-byte buffer", vk_last_recv_len, off, bsize);
+		}
 		return;
 	}
 	if (S->rd == NULL || !S->rd->live)
@@ -848,8 +868,6 @@ nbr_wait(struct sockst * S, size_t k, size_t consume_j, int chain_n, size_t chai
 			sim_viol("C14.retry", "wait", "netbuf_read_wait failed again with a healthy allocator");
 	}
 	R->cnt[N_NBR_WAIT]++;
-	if (k > 4096)
-		R->cnt[N_NBR_GROW]++;
 	TR(0x20, k, N->consumed, "netbuf_read_wait(%zu) at stream offset %zu%s", k, N->consumed, in_cb ? " [from callback]" : "");
 }
 
